@@ -3912,6 +3912,14 @@ def _check_dependents_are_predicates(
             if isinstance(e, (ApplyConcatApply, TreeReduce, ShuffleReduce)):
                 return False
 
+        if isinstance(e, MapOverlap) or not isinstance(
+            e, (Blockwise, ApplyConcatApply, TreeReduce, ShuffleReduce, Literal)
+        ):
+            # Cumulative, window and other terms that depend on the order or
+            # the set of rows: the predicate is not row-local, relocating the
+            # filter would change its value
+            return False
+
         allowed_expressions.add(e._name)
         stack.extend(e.dependencies())
 
